@@ -3,7 +3,6 @@ package main
 import (
 	"fmt"
 	"go/token"
-	"strings"
 
 	"golang.org/x/tools/go/ssa"
 )
@@ -11,356 +10,633 @@ import (
 func init() {
 	register(&propDef{
 		id: "C34", run: runC34, minOblig: 10,
-		explanation: "Decides the client-auth discipline: (sign only accepted keys) in publicKeyCallback.auth every path of a loop iteration to SignWithAlgorithm crosses validateKey(pub, algo, …) == true for the public key of the same signer and the same algorithm value, the signer asked is the one pickSignatureAlgorithm returned, the algorithm requested is underlyingAlgo(algo), and the key bytes sent are pub.Marshal(); confirmKeyAck returns true only behind the algorithm-membership test on the PK_OK message and bytes.Equal of its key with ours; (follow the server's list) in clientAuthenticate the next method is taken from config.Auth only behind 'not in tried' and equality with an element of the server's method list; that list is replaced by the previous one only on the 'methods == nil' edge of the auth result (an empty non-nil list means no method can continue); authSuccess returns nil at once; (bounded) every cycle of the method loop crosses the maxAuthClientTried test; (algorithm choice) pickSignatureAlgorithm returns findCommon(signer-ordered key algorithms, server algorithms) with the client flag, or the documented fallback. NOT decided: behaviour against every server script.",
+		explanation: "Decides the client-auth discipline, independently of how the code is split into helpers (values are identified by provenance across call boundaries, checks by role; a helper whose result can only be true/nil/non-nil behind a check establishes that check for its caller): (sign only accepted keys) every SignWithAlgorithm reachable from publicKeyCallback.auth is invoked on the signer returned by a pickSignatureAlgorithm call, and every path from that call to the signature crosses validateKey(key, algo, …) == true for the public key of the same signer and the algorithm returned by the same call; the algorithm requested is underlyingAlgo(algo), and the signed data is buildDataSignedForAuth(session, …, algo, key.Marshal()); every result 'true' of confirmKeyAck implies the membership test of the PK_OK message's algorithm and the equality (bytes.Equal or an equivalent) of its key with key.Marshal(); (follow the server's list) in clientAuthenticate every value that can become the next method is nil, the initial none method, the AuthCallback's choice, or an element of config.Auth that arrives only behind 'its method() is not in the attempt-record list' and 'its method() is in the list derived from the server's answer'; that list is the server's own list except on edges where the server's list is nil, where the previous one is reused (an empty non-nil list means no method can continue); everything reachable after an authSuccess edge returns nil without another attempt, and nil is returned only behind such an edge; (bounded) every cycle of the method loop crosses the test that len(a)+len(b) of two distinct lists is within maxAuthClientTried; (algorithm choice) pickSignatureAlgorithm returns the result of findCommon(list built by appending elements of algorithmsForKeyFormat(…), list derived from the server-sig-algs extension) with the client flag, or the documented fallback. NOT decided: behaviour against every server script; that the key-algorithm list follows the signer's order of preference.",
 		assumptions: []string{"AuthMethod implementations supplied by users are out of scope"},
 	})
-	tech("C34", "iteration-local must-cross CFG rules, argument provenance, nil-vs-empty edge classification, cycle-must-cross")
+	tech("C34", "value-sensitive interprocedural gate analysis (helper summaries, phi-carried flags), provenance across calls, arrival-of-a-value must-cross, nil-vs-empty edge classification, cycle-must-cross")
 }
 
 func runC34(c *Ctx) {
-	// ---- (a) publicKeyCallback.auth
-	if f := c.fn("ssh", "(publicKeyCallback).auth"); f != nil {
-		sw := calls(f, nameIs("invoke:(ssh.AlgorithmSigner).SignWithAlgorithm", "invoke:(ssh.MultiAlgorithmSigner).SignWithAlgorithm"))
-		vk := callsNamed(f, "ssh.validateKey")
-		pk := callsNamed(f, "ssh.pickSignatureAlgorithm")
-		if len(sw) != 1 || len(vk) != 1 || len(pk) != 1 {
-			c.fail("C34.sign-accepted", "(publicKeyCallback).auth", f, fmt.Sprintf("anchors: %d SignWithAlgorithm, %d validateKey, %d pickSignatureAlgorithm", len(sw), len(vk), len(pk)))
-		} else {
-			h := innermostLoopHeader(sw[0].Block())
-			pass := callSuccess(vk, 0, isTrue)
-			okCross := h != nil && len(pass) > 0
+	c34SignAccepted(c)
+	c34KeyAck(c)
+	c34ClientAuthenticate(c)
+	c34PickAlgo(c)
+}
+
+// ---- (a) publicKeyCallback.auth: a signature is produced only for an acknowledged key
+func c34SignAccepted(c *Ctx) {
+	f := c.fn("ssh", "(publicKeyCallback).auth")
+	if f == nil {
+		return
+	}
+	const rule = "C34.sign-accepted"
+	sw := deepCalls(f, nameIs("invoke:(ssh.AlgorithmSigner).SignWithAlgorithm", "invoke:(ssh.MultiAlgorithmSigner).SignWithAlgorithm"))
+	vk := deepCallsNamed(f, "ssh.validateKey")
+	if len(sw) == 0 || len(vk) == 0 {
+		c.fail(rule, "(publicKeyCallback).auth", f, fmt.Sprintf("anchors: %d SignWithAlgorithm, %d validateKey reachable from (publicKeyCallback).auth", len(sw), len(vk)))
+		c.fail(rule, "(publicKeyCallback).auth arguments", f, "anchors lost")
+		return
+	}
+	okCross, okArgs := true, true
+	crossAt, argsAt := sw[0], sw[0]
+	detail := ""
+	bad := func(at ssa.CallInstruction, d string) {
+		if okArgs {
+			okArgs, detail, argsAt = false, d, at
+		}
+	}
+	for _, s := range sw {
+		// the signer: result 0 of a pickSignatureAlgorithm call
+		var pkc *ssa.Call
+		if ex, ok := c.c34Org(s.Common().Value).(*ssa.Extract); ok && ex.Index == 0 {
+			if call, ok := ex.Tuple.(*ssa.Call); ok && short(calleeName(&call.Call)) == "ssh.pickSignatureAlgorithm" {
+				pkc = call
+			}
+		}
+		if pkc == nil {
+			bad(s, "the signature is not produced by the signer returned by pickSignatureAlgorithm")
 			if okCross {
-				cut := edgeSet{}
-				cut.addAll(pass)
-				for k := range backEdges(f) {
-					cut[k] = true
-				}
-				okCross = !reach([]*ssa.BasicBlock{h}, cut)[sw[0].Block()]
+				okCross, crossAt = false, s
 			}
-			c.check(okCross, "C34.sign-accepted", "(publicKeyCallback).auth", sw[0], "a signature is produced only after the server acknowledged this key in the same iteration", "SignWithAlgorithm is reachable without validateKey(...) == true in the same iteration")
-			// provenance
-			pkc := pk[0].(*ssa.Call)
-			as, algo := resultN(pkc, 0), resultN(pkc, 1)
-			signer := pkc.Call.Args[0]
-			okArgs := len(as) == 1 && len(algo) == 1
-			detail := ""
-			if okArgs {
-				// validateKey(pub, algo,…): pub = signer.PublicKey()
-				pub, _ := vk[0].Common().Args[0].(*ssa.Call)
-				if pub == nil || !pub.Call.IsInvoke() || pub.Call.Method.Name() != "PublicKey" || pub.Call.Value != signer {
-					okArgs, detail = false, "validateKey is not asked about the public key of the signer being tried"
-				}
-				if vk[0].Common().Args[1] != algo[0] {
-					okArgs, detail = false, "validateKey and the signature use different algorithms"
-				}
-				if sw[0].Common().Value != as[0] {
-					okArgs, detail = false, "the signature is not produced by the signer returned by pickSignatureAlgorithm"
-				}
-				a := sw[0].Common().Args
-				if ua, isC := a[len(a)-1].(*ssa.Call); !isC || short(calleeName(&ua.Call)) != "ssh.underlyingAlgo" || ua.Call.Args[0] != algo[0] {
-					okArgs, detail = false, "the signer is not asked for underlyingAlgo(algo)"
-				}
-				// signed data: buildDataSignedForAuth(session, …, algo, pub.Marshal())
-				if bd, isC := a[1].(*ssa.Call); !isC || short(calleeName(&bd.Call)) != "ssh.buildDataSignedForAuth" || bd.Call.Args[0] != ssa.Value(f.Params[1]) || bd.Call.Args[2] != algo[0] {
-					okArgs, detail = false, "the signed data is not buildDataSignedForAuth(session, request, algo, key)"
-				} else if mk, isC := bd.Call.Args[3].(*ssa.Call); !isC || mk.Call.Value != ssa.Value(pub) || mk.Call.Method.Name() != "Marshal" {
-					okArgs, detail = false, "the signed data does not contain the offered key's bytes"
-				}
-			}
-			c.check(okArgs, "C34.sign-accepted", "(publicKeyCallback).auth arguments", sw[0], "same signer, key, and algorithm throughout query, signature and request", detail)
+			continue
 		}
-	}
-	if f := c.fn("ssh", "confirmKeyAck"); f != nil {
-		acc := retTargets(f, func(r *ssa.Return) bool {
-			b, ok := constBool(retVal(r, 0))
-			return !ok || b
+		signer := pkc.Call.Args[0]
+		isAlgo := func(v ssa.Value) bool {
+			ex, ok := c.c34Org(v).(*ssa.Extract)
+			return ok && ex.Index == 1 && ex.Tuple == ssa.Value(pkc)
+		}
+		isPub := func(v ssa.Value) bool { // signer.PublicKey()
+			recv, ok := c.c34Invoke(v, "PublicKey")
+			return ok && c.c34Same(recv, signer)
+		}
+		a := s.Common().Args
+		if ua, ok := c.c34StaticCall(a[len(a)-1], "ssh.underlyingAlgo"); !ok || !isAlgo(ua.Call.Args[0]) {
+			bad(s, "the signer is not asked for underlyingAlgo(algo)")
+		}
+		// signed data: buildDataSignedForAuth(session, …, algo, pub.Marshal())
+		if bd, ok := c.c34StaticCall(a[1], "ssh.buildDataSignedForAuth"); !ok || len(f.Params) < 2 || c.c34Org(bd.Call.Args[0]) != c.c34Org(f.Params[1]) || !isAlgo(bd.Call.Args[2]) {
+			bad(s, "the signed data is not buildDataSignedForAuth(session, request, algo, key)")
+		} else if recv, ok := c.c34Invoke(bd.Call.Args[3], "Marshal"); !ok || !isPub(recv) {
+			bad(s, "the signed data does not contain the offered key's bytes")
+		}
+		// the acknowledgements that count: validateKey(signer.PublicKey(), algo, …)
+		acks := map[ssa.Value]bool{}
+		wrongKey, wrongAlgo := false, false
+		for _, v := range vk {
+			call, ok := v.(*ssa.Call)
+			if !ok {
+				continue
+			}
+			kOK, aOK := isPub(call.Call.Args[0]), isAlgo(call.Call.Args[1])
+			if kOK && aOK {
+				acks[call] = true
+			} else if !kOK {
+				wrongKey = true
+			} else {
+				wrongAlgo = true
+			}
+		}
+		if len(acks) == 0 {
+			if wrongAlgo {
+				bad(s, "validateKey and the signature use different algorithms")
+			} else if wrongKey {
+				bad(s, "validateKey is not asked about the public key of the signer being tried")
+			} else {
+				bad(s, "no validateKey call for this signer")
+			}
+		}
+		g := c.c34NewGate(func(v ssa.Value) (bool, bool) {
+			ex, ok := v.(*ssa.Extract)
+			return true, ok && ex.Index == 0 && acks[ex.Tuple]
 		})
-		var algoPass, keyPass []edge
-		for _, ci := range calls(f, nameIs("slices.Contains")) {
-			if _, fld, _, ok := fieldOf(ci.Common().Args[1]); ok && fld == "Algo" {
-				y, _ := successEdges(ci.(*ssa.Call), 0, isTrue)
-				algoPass = append(algoPass, y...)
+		// every path from the pickSignatureAlgorithm call (the definition of the
+		// signer and algorithm in use) to the signature crosses the acknowledgement
+		root := pkc.Parent()
+		inRoot := false
+		for _, h := range deepFuncs(root) {
+			if h == s.Parent() {
+				inRoot = true
 			}
 		}
-		for _, ci := range callsNamed(f, "bytes.Equal") {
-			a := ci.Common().Args
-			_, f0, _, ok0 := fieldOf(a[0])
-			_, f1, _, ok1 := fieldOf(a[1])
-			if (ok0 && f0 == "PubKey") || (ok1 && f1 == "PubKey") {
-				y, _ := successEdges(ci.(*ssa.Call), 0, isTrue)
-				keyPass = append(keyPass, y...)
+		target := ssa.Instruction(s)
+		if !inRoot || deepReachFrom(root, pkc.Block(), g.passDeep(root), func(in ssa.Instruction) bool { return in == target }) != nil {
+			if okCross {
+				okCross, crossAt = false, s
 			}
 		}
-		c.mustCross("C34.key-ack", "confirmKeyAck algorithm", f, instrsOf(acc), algoPass, "PK_OK algorithm is one valid for the key's format")
-		c.mustCross("C34.key-ack", "confirmKeyAck key bytes", f, instrsOf(acc), keyPass, "PK_OK key bytes equal ours")
 	}
-	// ---- (b),(c) clientAuthenticate
-	if f := c.fn("ssh", "(*connection).clientAuthenticate"); f != nil {
-		var authCall *ssa.Call
-		for _, ci := range calls(f, nameIs("invoke:(ssh.AuthMethod).auth")) {
-			authCall = ci.(*ssa.Call)
+	c.check(okCross, rule, "(publicKeyCallback).auth", crossAt, "a signature is produced only after the server acknowledged this key and algorithm (every path from pickSignatureAlgorithm to SignWithAlgorithm crosses validateKey == true)", "SignWithAlgorithm is reachable without validateKey(...) == true in the same iteration")
+	c.check(okArgs, rule, "(publicKeyCallback).auth arguments", argsAt, "same signer, key, and algorithm throughout query, signature and request", detail)
+}
+
+// ---- confirmKeyAck: true only for a PK_OK naming a valid algorithm and our key
+func c34KeyAck(c *Ctx) {
+	f := c.fn("ssh", "confirmKeyAck")
+	if f == nil {
+		return
+	}
+	const rule = "C34.key-ack"
+	isMsgField := func(v ssa.Value, field string) bool {
+		typ, fld, ok := c.c34FieldOf(v)
+		return ok && typ == "userAuthPubKeyOkMsg" && fld == field
+	}
+	algoGate := c.c34NewGate(func(v ssa.Value) (bool, bool) {
+		if _, elem, pol, _, ok := c.c34Member(v); ok && isMsgField(elem, "Algo") {
+			return pol, true
 		}
-		if authCall == nil {
-			c.fail("C34.method-list", "clientAuthenticate", f, "auth.auth call not found")
+		return false, false
+	})
+	ours := func(v ssa.Value) bool { // key.Marshal()
+		_, ok := c.c34Invoke(v, "Marshal")
+		return ok
+	}
+	pair := func(x, y ssa.Value) bool {
+		return (isMsgField(x, "PubKey") && ours(y)) || (isMsgField(y, "PubKey") && ours(x))
+	}
+	keyGate := c.c34NewGate(func(v ssa.Value) (bool, bool) {
+		switch x := v.(type) {
+		case *ssa.Call:
+			switch short(calleeName(&x.Call)) {
+			case "bytes.Equal", "slices.Equal":
+				if pair(x.Call.Args[0], x.Call.Args[1]) {
+					return true, true
+				}
+			}
+		case *ssa.BinOp:
+			if x.Op != token.EQL {
+				break
+			}
+			// string(a) == string(b)
+			if pair(stripConv(x.X), stripConv(x.Y)) {
+				return true, true
+			}
+			// subtle.ConstantTimeCompare(a, b) == 1
+			for _, p := range [][2]ssa.Value{{x.X, x.Y}, {x.Y, x.X}} {
+				if call, ok := p[0].(*ssa.Call); ok && calleeName(&call.Call) == "crypto/subtle.ConstantTimeCompare" {
+					if k, isK := constInt(p[1]); isK && k == 1 && pair(call.Call.Args[0], call.Call.Args[1]) {
+						return true, true
+					}
+				}
+			}
+		}
+		return false, false
+	})
+	for _, gc := range []struct {
+		g               *c34Gate
+		construct, what string
+	}{
+		{algoGate, "confirmKeyAck algorithm", "PK_OK algorithm is one valid for the key's format"},
+		{keyGate, "confirmKeyAck key bytes", "PK_OK key bytes equal ours"},
+	} {
+		gc.g.passDeep(f)
+		if gc.g.nGates == 0 {
+			c.fail(rule, gc.construct, f, "gate not found: "+gc.what+" (no test of it exists in confirmKeyAck or its helpers)")
+			continue
+		}
+		var badRet *ssa.Return
+		for _, r := range returnsOf(f) {
+			if !(gc.g.implies(retVal(r, 0), c34True) || gc.g.blockGated(r.Block())) && badRet == nil {
+				badRet = r
+			}
+		}
+		if badRet != nil {
+			c.fail(rule, gc.construct, badRet, "can return true without passing "+gc.what)
+		} else {
+			c.ok(rule, gc.construct, f, "every result 'true' implies "+gc.what)
+		}
+	}
+}
+
+// ---- (b),(c) clientAuthenticate
+func c34ClientAuthenticate(c *Ctx) {
+	f := c.fn("ssh", "(*connection).clientAuthenticate")
+	if f == nil {
+		return
+	}
+	var authCall *ssa.Call
+	nAuth := 0
+	for _, ci := range calls(f, nameIs("invoke:(ssh.AuthMethod).auth")) {
+		if call, ok := ci.(*ssa.Call); ok && innermostLoopHeader(call.Block()) != nil {
+			authCall = call
+			nAuth++
+		}
+	}
+	if nAuth != 1 {
+		c.fail("C34.method-list", "clientAuthenticate", f, fmt.Sprintf("%d calls of AuthMethod.auth inside a loop of clientAuthenticate (want 1)", nAuth))
+		return
+	}
+	h := innermostLoopHeader(authCall.Block())
+	back := backEdges(f)
+	methods := resultN(authCall, 1)
+	if len(methods) != 1 {
+		c.fail("C34.method-list", "clientAuthenticate", authCall, "the method list returned by auth is not used")
+		return
+	}
+	server := methods[0]
+	isServerList := func(v ssa.Value) bool { return c.c34Family(v)[server] }
+	isRecordList := func(v ssa.Value) bool {
+		fam := c.c34Family(v)
+		return !fam[server] && c34HasAppend(fam)
+	}
+
+	// ---- next method selection
+	usedLists := map[ssa.Value]bool{} // lists the candidates are looked up in
+	okSel, nSel := true, 0
+	selDetail := "a method from config.Auth can be selected although it was already tried or is not in the server's list"
+	var selAt poser = f
+	for _, l := range c.c34Leaves(authCall.Call.Value, nil) {
+		v := l.val
+		if isNilConst(v) {
+			continue
+		}
+		if mi, ok := v.(*ssa.MakeInterface); ok && c34NamedElem(mi.X.Type()) == "noneAuth" {
+			continue // the initial "none" request
+		}
+		if ex, ok := v.(*ssa.Extract); ok && ex.Index == 0 {
+			if call, ok := ex.Tuple.(*ssa.Call); ok && call.Call.StaticCallee() == nil && !call.Call.IsInvoke() {
+				if typ, fld, ok := c.c34FieldOf(call.Call.Value); ok && typ == "ClientConfig" && fld == "AuthCallback" {
+					continue // documented: the callback's choice takes precedence
+				}
+			}
+		}
+		base, isElem := c.c34ElemOf(v)
+		typ, fld, isFld := "", "", false
+		if isElem {
+			typ, fld, isFld = c.c34FieldOf(base)
+		}
+		if !isElem || !isFld || typ != "ClientConfig" || fld != "Auth" {
+			if okSel {
+				okSel, selDetail = false, "the next method can come from a source other than config.Auth, the AuthCallback or the initial none method"
+				selAt = c34LeafPos(l, f)
+			}
+			continue
+		}
+		nSel++
+		cand := v
+		candName := func(x ssa.Value) bool { // cand.method()
+			recv, ok := c.c34Invoke(x, "method")
+			return ok && c.c34Same(recv, cand)
+		}
+		notTried := c.c34NewGate(func(x ssa.Value) (bool, bool) {
+			if list, elem, pol, exact, ok := c.c34Member(x); ok && exact && candName(elem) && isRecordList(list) {
+				return !pol, true // holds when the method is NOT among the recorded attempts
+			}
+			return false, false
+		})
+		inList := c.c34NewGate(func(x ssa.Value) (bool, bool) {
+			if list, elem, pol, _, ok := c.c34Member(x); ok && candName(elem) && isServerList(list) {
+				usedLists[c.c34Org(list)] = true
+				return pol, true
+			}
+			return false, false
+		})
+		// the candidate is "element i of config.Auth": it is the same candidate
+		// (however often it is loaded) from the definition of the index on
+		var start *ssa.BasicBlock
+		if u, ok := v.(*ssa.UnOp); ok {
+			if ia, ok := u.X.(*ssa.IndexAddr); ok {
+				if in, ok := ia.Index.(ssa.Instruction); ok && in.Parent() == l.fn {
+					start = in.Block()
+				} else if l.fn != nil {
+					start = l.fn.Blocks[0]
+				}
+			}
+		}
+		for _, g := range []*c34Gate{notTried, inList} {
+			g.passDeep(f)
+			var cut edgeSet
+			if l.fn != nil {
+				cut = g.passOf(l.fn)
+			}
+			if c34Arrives(l, start, cut) && okSel {
+				okSel = false
+				selAt = c34LeafPos(l, f)
+			}
+		}
+	}
+	if nSel == 0 && okSel {
+		okSel, selDetail = false, "no selection of the next method from config.Auth found"
+	}
+	c.check(okSel, "C34.method-list", "clientAuthenticate next method", selAt, "a configured method is selected only if untried and named in the server's list", selDetail)
+
+	// ---- nil-vs-empty: the list used is the server's own, except when that is nil
+	var nilYes, nilNo, prevNil edgeSet = edgeSet{}, edgeSet{}, edgeSet{}
+	isPrev := func(v ssa.Value) bool { // loop-carried list that holds an earlier answer of the server
+		ph, ok := c.c34Org(v).(*ssa.Phi)
+		return ok && ph.Block() == h && c.c34Family(ph)[server]
+	}
+	deepInstrs(f, func(in ssa.Instruction) {
+		bo, ok := in.(*ssa.BinOp)
+		if !ok || (bo.Op != token.EQL && bo.Op != token.NEQ) {
 			return
 		}
-		h := innermostLoopHeader(authCall.Block())
-		back := backEdges(f)
-		methods := resultN(authCall, 1)
-		// nil-vs-empty
-		okNil := false
-		detail := "no phi merging the server's list with the previous list"
-		if len(methods) == 1 && h != nil {
-			yes, no := edgesWhere(methods[0], isNil)
-			for _, r := range *methods[0].Referrers() {
-				ph, ok := r.(*ssa.Phi)
-				if !ok {
-					continue
-				}
-				okNil = len(yes) > 0
-				detail = "the previous method list is reused on an edge other than 'methods == nil' (an empty list from the server must end the attempt, not revive stale methods)"
-				for i, ev := range ph.Edges {
-					pred := ph.Block().Preds[i]
-					cutY := edgeSet{}
-					cutY.addAll(yes)
-					cutN := edgeSet{}
-					cutN.addAll(no)
-					for k := range back {
-						cutY[k] = true
-						cutN[k] = true
-					}
-					into := func(cut edgeSet) bool { // can the phi be entered from pred without crossing cut?
-						if !reachAfter(authCall, cut)[pred] && authCall.Block() != pred {
-							return false
-						}
-						for si, sb := range pred.Succs {
-							if sb == ph.Block() && !cut[edge{pred, si}] {
-								return true
-							}
-						}
-						return false
-					}
-					if ev == methods[0] {
-						if into(cutN) { // fresh list must arrive over a "!= nil" edge
-							okNil = false
-						}
-					} else {
-						if into(cutY) { // previous list only over "== nil"
-							okNil = false
-						}
-					}
-				}
+		for _, p := range [][2]ssa.Value{{bo.X, bo.Y}, {bo.Y, bo.X}} {
+			if !isNilConst(p[1]) {
+				continue
+			}
+			y, n := boolEdges(bo, bo.Op == token.EQL)
+			if c.c34Org(p[0]) == server {
+				nilYes.addAll(y)
+				nilNo.addAll(n)
+			} else if isPrev(p[0]) {
+				prevNil.addAll(y)
 			}
 		}
-		c.check(okNil, "C34.method-list", "clientAuthenticate nil-vs-empty method list", authCall, "the previous list is reused exactly when the method returned a nil list", detail)
-		// next method selection
-		var sel []ssa.Instruction // blocks where auth phi receives an element of config.Auth
-		var notTried, inList []edge
-		allInstrs(f, func(in ssa.Instruction) {
-			if call, ok := in.(*ssa.Call); ok && short(calleeName(&call.Call)) == "slices.Contains" && h != nil && h.Dominates(call.Block()) {
-				if _, isPhi := call.Call.Args[0].(*ssa.Phi); isPhi {
-					_, no := successEdges(call, 0, isTrue)
-					notTried = append(notTried, no...)
-				}
-			}
-			if bo, ok := in.(*ssa.BinOp); ok && bo.Op == token.EQL && h != nil && h.Dominates(bo.Block()) {
-				// meth == candidateMethod: one side a load of an element, other a call to .method()
-				isMeth := func(v ssa.Value) bool {
-					call, ok := v.(*ssa.Call)
-					return ok && call.Call.IsInvoke() && call.Call.Method.Name() == "method"
-				}
-				isElem := func(v ssa.Value) bool {
-					u, ok := v.(*ssa.UnOp)
-					if !ok {
-						return false
-					}
-					_, ok = u.X.(*ssa.IndexAddr)
-					return ok
-				}
-				if (isMeth(bo.X) && isElem(bo.Y)) || (isMeth(bo.Y) && isElem(bo.X)) {
-					y, _ := boolEdges(bo, true)
-					inList = append(inList, y...)
-				}
-			}
-		})
-		// the loop-carried auth phi: header phi of interface type AuthMethod
-		var authPhi *ssa.Phi
-		if h != nil {
-			for _, in := range h.Instrs {
-				if p, ok := in.(*ssa.Phi); ok && strings.HasSuffix(p.Type().String(), "AuthMethod") {
-					authPhi = p
-				}
-			}
-		}
-		okSel := authPhi != nil && len(notTried) > 0 && len(inList) > 0
-		nSel := 0
-		if okSel {
-			for _, l := range phiLeaves(authPhi) {
-				u, isLoad := l.val.(*ssa.UnOp)
-				if !isLoad {
-					continue
-				}
-				ia, isIA := u.X.(*ssa.IndexAddr)
-				if !isIA {
-					continue
-				}
-				if _, fld, _, ok := fieldOf(ia.X); !ok || fld != "Auth" {
-					continue
-				}
-				nSel++
-				sel = append(sel, u)
-				for _, pass := range [][]edge{notTried, inList} {
-					cut := edgeSet{}
-					cut.addAll(pass)
-					for k := range back {
-						cut[k] = true
-					}
-					r := reachAfter(authCall, cut)
-					if r[l.pred] {
-						for si, sb := range l.pred.Succs {
-							if sb == l.phi.Block() && !cut[edge{l.pred, si}] {
-								okSel = false
-							}
-						}
-					}
-				}
-			}
-		}
-		c.check(okSel && nSel >= 1, "C34.method-list", "clientAuthenticate next method", f, "a configured method is selected only if untried and named in the server's list", "a method from config.Auth can be selected although it was already tried or is not in the server's list")
-		// success returns immediately
-		okSucc := false
-		succConst, _ := pkgConstInt(c, "ssh", "authSuccess")
-		for _, v := range resultN(authCall, 0) {
-			// value flows through a phi (ok = authFailure on error)
-			var vals []ssa.Value
-			vals = append(vals, v)
-			for _, r := range *v.Referrers() {
-				if ph, ok := r.(*ssa.Phi); ok {
-					vals = append(vals, ph)
-				}
-			}
-			for _, vv := range vals {
-				es := edgesImplying(vv, []int64{0, 1, 2, 3}, func(d int64) bool { return d == succConst })
-				for _, e := range es {
-					blk := e.to()
-					if r, ok := blk.Instrs[len(blk.Instrs)-1].(*ssa.Return); ok && isNilConst(retVal(r, 0)) {
-						okSucc = true
-					}
-				}
-			}
-		}
-		c.check(okSucc, "C34.success", "clientAuthenticate authSuccess", f, "authSuccess returns nil immediately", "authSuccess does not end authentication immediately")
-		// nil-error return only on authSuccess
-		var succEdges []edge
-		for _, v := range resultN(authCall, 0) {
-			vals := []ssa.Value{v}
-			for _, r := range *v.Referrers() {
-				if ph, ok := r.(*ssa.Phi); ok {
-					vals = append(vals, ph)
-				}
-			}
-			for _, vv := range vals {
-				succEdges = append(succEdges, edgesImplying(vv, []int64{0, 1, 2, 3}, func(d int64) bool { return d == succConst })...)
-			}
-		}
-		c.mustCross("C34.success", "clientAuthenticate nil return", f, acceptReturns(f, 0), succEdges, "the method reporting authSuccess")
-		// bound
-		maxT, okm := pkgConstInt(c, "ssh", "maxAuthClientTried")
-		var within []edge
-		allInstrs(f, func(in ssa.Instruction) {
-			if bo, ok := in.(*ssa.BinOp); ok && okm {
-				if k, ok := constInt(bo.Y); ok && k == maxT {
-					within = append(within, edgesImplying(bo.X, []int64{0, maxT - 1, maxT, maxT + 1}, func(d int64) bool { return d <= maxT })...)
-					_ = bo
-				}
-			}
-		})
-		// the bounded quantity counts BOTH kinds of attempts (failed and
-		// partially successful methods): len(a)+len(b) over two distinct lists
-		sumOK := false
-		allInstrs(f, func(in ssa.Instruction) {
-			if bo, ok := in.(*ssa.BinOp); ok && okm {
-				if k, ok := constInt(bo.Y); ok && k == maxT {
-					if add, ok := bo.X.(*ssa.BinOp); ok && add.Op == token.ADD {
-						l1, ok1 := add.X.(*ssa.Call)
-						l2, ok2 := add.Y.(*ssa.Call)
-						if ok1 && ok2 && calleeName(&l1.Call) == "builtin:len" && calleeName(&l2.Call) == "builtin:len" && l1.Call.Args[0] != l2.Call.Args[0] {
-							sumOK = true
-						}
-					}
-				}
-			}
-		})
-		okB := h != nil && len(within) > 0 && sumOK
-		if okB {
-			cut := edgeSet{}
-			cut.addAll(within)
-			r := reach([]*ssa.BasicBlock{h}, cut)
-			for e := range back {
-				if e.to() == h && r[e.from] && !cut[e] {
-					okB = false
-				}
-			}
-		}
-		c.check(okB, "C34.bounded", "clientAuthenticate attempt bound", f, fmt.Sprintf("every cycle crosses the <= %d attempts test", maxT), "the method loop can cycle without passing the maxAuthClientTried test")
-		// each cycle records the attempt: tried or partialSuccess grows unless success
-		_ = sel
+	})
+	// a non-empty list is not nil either: `len(methods) > 0` edges also license
+	// the use of the server's own list (they do NOT license reusing the old one)
+	freshOK := edgeSet{}
+	for e := range nilNo {
+		freshOK[e] = true
 	}
-	// ---- (d) pickSignatureAlgorithm
-	if f := c.fn("ssh", "pickSignatureAlgorithm"); f != nil {
-		fc := callsNamed(f, "ssh.findCommon")
-		ok := len(fc) == 1
-		detail := ""
-		if ok {
-			a := fc[0].Common().Args
-			// client list = keyAlgos built by appending supportedKeyAlgos[idx] while ranging over as.Algorithms()
-			if _, isPhi := a[1].(*ssa.Phi); !isPhi {
-				ok, detail = false, "the client-side list is not the signer-ordered key algorithm list"
-			}
-			if b, isC := constBool(a[3]); !isC || !b {
-				ok, detail = false, "findCommon is not called with the client flag (client preference order decides)"
-			}
-			// server list derives from extensions["server-sig-algs"]
-			srvOK := false
-			var walk func(v ssa.Value, d int) bool
-			seen := map[ssa.Value]bool{}
-			walk = func(v ssa.Value, d int) bool {
-				if d > 12 || seen[v] {
-					return false
+	for e := range prevNil {
+		freshOK[e] = true
+	}
+	deepInstrs(f, func(in ssa.Instruction) {
+		if call, ok := in.(*ssa.Call); ok && calleeName(&call.Call) == "builtin:len" && c.c34Org(call.Call.Args[0]) == server {
+			freshOK.addAll(edgesImplying(call, []int64{0, 1, 2, 9}, func(d int64) bool { return d > 0 }))
+		}
+	})
+	nFresh, nPrev := 0, 0
+	badPrev, badOther, badFresh := false, false, false
+	for u := range usedLists {
+		for _, l := range c.c34Leaves(u, func(v ssa.Value) bool { p, isPhi := v.(*ssa.Phi); return isPhi && p.Block() == h }) {
+			start := authCall.Block()
+			switch {
+			case l.val == server:
+				nFresh++
+				if c34Arrives(l, start, freshOK) {
+					badFresh = true
 				}
-				seen[v] = true
-				if lk, isL := v.(*ssa.Lookup); isL {
-					if s, isS := constString(lk.Index); isS && s == "server-sig-algs" {
-						return true
+			case isPrev(l.val):
+				nPrev++
+				if c34Arrives(l, start, nilYes) {
+					badPrev = true
+				}
+			default:
+				badOther = true
+			}
+		}
+	}
+	nilDetail := ""
+	switch {
+	case len(usedLists) == 0:
+		nilDetail = "no lookup of a candidate method in the server's list found"
+	case badPrev:
+		nilDetail = "the previous method list is reused on an edge other than 'methods == nil' (an empty list from the server must end the attempt, not revive stale methods)"
+	case badOther:
+		nilDetail = "the list candidates are looked up in can be one that is neither the server's answer nor the previous list"
+	case badFresh:
+		nilDetail = "the server's list is used although it is nil and an earlier list exists"
+	case nFresh == 0 || nPrev == 0:
+		nilDetail = "no merge of the server's list with the previous list"
+	}
+	c.check(nilDetail == "", "C34.method-list", "clientAuthenticate nil-vs-empty method list", authCall, "the previous list is reused exactly when the method returned a nil list", nilDetail)
+
+	// ---- success returns immediately; nil is returned only on success
+	succConst, _ := pkgConstInt(c, "ssh", "authSuccess")
+	var succEdges []edge
+	{
+		seen := map[ssa.Value]bool{}
+		var vals []ssa.Value
+		var grow func(v ssa.Value, d int)
+		grow = func(v ssa.Value, d int) { // the result and the phis it flows through (ok = authFailure on error)
+			if seen[v] || d > 4 {
+				return
+			}
+			seen[v] = true
+			vals = append(vals, v)
+			if v.Referrers() == nil {
+				return
+			}
+			for _, r := range *v.Referrers() {
+				if ph, ok := r.(*ssa.Phi); ok {
+					grow(ph, d+1)
+				}
+			}
+		}
+		for _, v := range resultN(authCall, 0) {
+			grow(v, 0)
+		}
+		for _, vv := range vals {
+			succEdges = append(succEdges, edgesImplying(vv, []int64{0, 1, 2, 3}, func(d int64) bool { return d == succConst })...)
+		}
+	}
+	okSucc := len(succEdges) > 0
+	for _, e := range succEdges {
+		r := reach([]*ssa.BasicBlock{e.to()}, nil)
+		nRet := 0
+		for b := range r {
+			if b == h || b == authCall.Block() {
+				okSucc = false // another attempt after success
+			}
+			if len(b.Instrs) == 0 {
+				continue
+			}
+			if ret, ok := b.Instrs[len(b.Instrs)-1].(*ssa.Return); ok {
+				nRet++
+				if !isNilConst(retVal(ret, 0)) {
+					okSucc = false
+				}
+			}
+		}
+		if nRet == 0 {
+			okSucc = false
+		}
+	}
+	c.check(okSucc, "C34.success", "clientAuthenticate authSuccess", f, "authSuccess returns nil immediately", "authSuccess does not end authentication immediately")
+	c.mustCross("C34.success", "clientAuthenticate nil return", f, acceptReturns(f, 0), succEdges, "the method reporting authSuccess")
+
+	// ---- bound: every cycle crosses "len(a)+len(b) <= maxAuthClientTried"
+	maxT, okm := pkgConstInt(c, "ssh", "maxAuthClientTried")
+	isAttemptCount := func(v ssa.Value) bool { // len(a)+len(b) over two distinct lists (failed and partially successful methods)
+		add, ok := c.c34Org(v).(*ssa.BinOp)
+		if !ok || add.Op != token.ADD {
+			return false
+		}
+		l1, ok1 := c.c34Org(add.X).(*ssa.Call)
+		l2, ok2 := c.c34Org(add.Y).(*ssa.Call)
+		if !ok1 || !ok2 || calleeName(&l1.Call) != "builtin:len" || calleeName(&l2.Call) != "builtin:len" {
+			return false
+		}
+		return c.c34Org(l1.Call.Args[0]) != c.c34Org(l2.Call.Args[0])
+	}
+	bound := c.c34NewGate(func(v ssa.Value) (bool, bool) {
+		bo, ok := v.(*ssa.BinOp)
+		if !ok || !okm {
+			return false, false
+		}
+		var k int64
+		var left bool
+		if n, isK := constInt(bo.Y); isK && isAttemptCount(bo.X) {
+			k, left = n, true
+		} else if n, isK := constInt(bo.X); isK && isAttemptCount(bo.Y) {
+			k, left = n, false
+		} else {
+			return false, false
+		}
+		if k != maxT {
+			return false, false
+		}
+		trueImplies, falseImplies := true, true
+		for _, d := range []int64{0, maxT - 1, maxT, maxT + 1, 2 * maxT} {
+			var res, valid bool
+			if left {
+				res, valid = evalCmp(bo.Op, d, k)
+			} else {
+				res, valid = evalCmp(bo.Op, k, d)
+			}
+			if !valid {
+				return false, false
+			}
+			if res && d > maxT {
+				trueImplies = false
+			}
+			if !res && d > maxT {
+				falseImplies = false
+			}
+		}
+		switch {
+		case trueImplies && !falseImplies:
+			return true, true
+		case falseImplies && !trueImplies:
+			return false, true
+		}
+		return false, false
+	})
+	within := bound.passOf(f)
+	okB := okm && len(within) > 0
+	if okB {
+		r := reach([]*ssa.BasicBlock{h}, within)
+		for e := range back {
+			if e.to() == h && r[e.from] && !within[e] {
+				okB = false
+			}
+		}
+	}
+	c.check(okB, "C34.bounded", "clientAuthenticate attempt bound", f, fmt.Sprintf("every cycle crosses the <= %d attempts test", maxT), "the method loop can cycle without passing the maxAuthClientTried test")
+}
+
+// c34LeafPos: a source position for a leaf (its value, else where it arrives).
+func c34LeafPos(l c34Leaf, f *ssa.Function) poser {
+	if in, ok := l.val.(ssa.Instruction); ok && in.Pos().IsValid() {
+		return in
+	}
+	if l.ret != nil && l.ret.Pos().IsValid() {
+		return l.ret
+	}
+	if l.pred != nil {
+		for i := len(l.pred.Instrs) - 1; i >= 0; i-- {
+			if l.pred.Instrs[i].Pos().IsValid() {
+				return l.pred.Instrs[i]
+			}
+		}
+	}
+	if l.fn != nil {
+		return l.fn
+	}
+	return f
+}
+
+// ---- (d) pickSignatureAlgorithm
+func c34PickAlgo(c *Ctx) {
+	f := c.fn("ssh", "pickSignatureAlgorithm")
+	if f == nil {
+		return
+	}
+	fc := deepCallsNamed(f, "ssh.findCommon")
+	ok := len(fc) >= 1
+	detail := ""
+	if !ok {
+		detail = "no findCommon call reachable from pickSignatureAlgorithm"
+	}
+	for _, ci := range fc {
+		call, isCall := ci.(*ssa.Call)
+		if !isCall {
+			ok, detail = false, "findCommon is deferred or run in a goroutine"
+			continue
+		}
+		a := call.Call.Args
+		// client list: built by appending elements of algorithmsForKeyFormat(…)
+		clientOK := false
+		for v := range c.c34Family(a[1]) {
+			ap, isAp := v.(*ssa.Call)
+			if !isAp || calleeName(&ap.Call) != "builtin:append" {
+				continue
+			}
+			for _, el := range c34AppendElems(ap) {
+				if list, isE := c.c34ElemOf(el); isE {
+					if _, isK := c.c34StaticCall(list, "ssh.algorithmsForKeyFormat"); isK {
+						clientOK = true
 					}
 				}
-				in, isI := v.(ssa.Instruction)
-				if !isI {
-					return false
-				}
-				for _, op := range in.Operands(nil) {
-					if *op != nil && walk(*op, d+1) {
-						return true
-					}
-				}
+			}
+		}
+		if !clientOK {
+			ok, detail = false, "the client-side list is not the signer-ordered key algorithm list"
+		}
+		if b, isC := constBool(c.c34Org(a[3])); !isC || !b {
+			ok, detail = false, "findCommon is not called with the client flag (client preference order decides)"
+		}
+		// server list derives from extensions["server-sig-algs"]
+		seen := map[ssa.Value]bool{}
+		var walk func(v ssa.Value, d int) bool
+		walk = func(v ssa.Value, d int) bool {
+			v = c.c34Org(v)
+			if d > 14 || v == nil || seen[v] {
 				return false
 			}
-			srvOK = walk(a[2], 0)
-			if !srvOK {
-				ok, detail = false, "the server-side list does not derive from the server-sig-algs extension"
+			seen[v] = true
+			if lk, isL := v.(*ssa.Lookup); isL {
+				if s, isS := constString(lk.Index); isS && s == "server-sig-algs" {
+					return true
+				}
 			}
-			// result: returned algo is findCommon's result on its success edge
-			res := resultN(fc[0].(*ssa.Call), 0)
-			found := false
-			for _, r := range returnsOf(f) {
-				if len(res) == 1 && retVal(r, 1) == res[0] {
+			var tuple *ssa.Call
+			idx := 0
+			switch x := v.(type) {
+			case *ssa.Call:
+				tuple = x
+			case *ssa.Extract:
+				tuple, _ = x.Tuple.(*ssa.Call)
+				idx = x.Index
+			}
+			if tuple != nil {
+				if H := samePkgCallee(tuple.Parent(), &tuple.Call); H != nil {
+					for _, r := range returnsOf(H) {
+						if idx < len(r.Results) && walk(retVal(r, idx), d+1) {
+							return true
+						}
+					}
+				}
+			}
+			in, isI := v.(ssa.Instruction)
+			if !isI {
+				return false
+			}
+			for _, op := range in.Operands(nil) {
+				if *op != nil && walk(*op, d+1) {
+					return true
+				}
+			}
+			return false
+		}
+		if !walk(a[2], 0) {
+			ok, detail = false, "the server-side list does not derive from the server-sig-algs extension"
+		}
+		// result: the negotiated algorithm is what pickSignatureAlgorithm returns
+		res := resultN(call, 0)
+		found := false
+		for _, r := range returnsOf(f) {
+			for _, l := range c.c34Leaves(retVal(r, 1), func(v ssa.Value) bool { return len(res) == 1 && v == res[0] }) {
+				if len(res) == 1 && l.val == res[0] {
 					found = true
 				}
 			}
-			if !found {
-				ok, detail = false, "the negotiated algorithm is not returned"
-			}
 		}
-		c.check(ok, "C34.pick-algo", "pickSignatureAlgorithm", f, "first signer-preferred algorithm also offered by the server, else the documented fallback", detail)
+		if !found {
+			ok, detail = false, "the negotiated algorithm is not returned"
+		}
 	}
+	c.check(ok, "C34.pick-algo", "pickSignatureAlgorithm", f, "first signer-preferred algorithm also offered by the server, else the documented fallback", detail)
 }
